@@ -68,6 +68,17 @@ async fn wait(k: VmInt) -> VmInt {
     WaitFuture(k).await
 }
 
+/// Host side of `sim.wait`: ready once event `k` was fired
+pub fn wait_event(k: VmInt) -> impl std::future::Future<Output = VmInt> {
+    WaitFuture(k)
+}
+
+/// `sim.fire k`: fires event `k` from a gluon program (returns `k`)
+fn fire_from_program(k: VmInt) -> VmInt {
+    fire(k);
+    k
+}
+
 fn load(thread: &Thread) -> vm::Result<ExternModule> {
     ExternModule::new(
         thread,
@@ -75,7 +86,8 @@ fn load(thread: &Thread) -> vm::Result<ExternModule> {
             obs => primitive!(2, obs),
             tick => primitive!(1, tick),
             fail => primitive!(1, fail),
-            wait => primitive!(1, "sim.wait", async fn wait)
+            wait => primitive!(1, "sim.wait", async fn wait),
+            fire => primitive!(1, "sim.fire", fire_from_program)
         },
     )
 }
